@@ -450,4 +450,13 @@ func c10History(c *ctx) {
 	w.settle()
 	time.Sleep(60 * time.Millisecond)
 	resolve("cluster-a", "after the cluster was removed and listed again with new endpoints")
+	// f. the same for cluster-b, the only cluster that names its load assignment
+	pushCDS("9", "cluster-a", "cluster-c")
+	w.settle()
+	resolve("cluster-b", "while the control plane does not list the cluster (nobody else names its load assignment)")
+	pushCDS("10", "cluster-a", "cluster-b", "cluster-c")
+	pushEDS("11", mkCLA("other-eds", 9))
+	w.settle()
+	time.Sleep(60 * time.Millisecond)
+	resolve("cluster-b", "after the only cluster of a load assignment was removed and listed again with new endpoints")
 }
